@@ -28,6 +28,7 @@ Bytes gen_document(Rng &rd, int tier, int &root_kind, Node *tree_out, bool &vali
     k.max_obj_depth = 1 + (int)rd.below(6);
     k.max_arr_depth = 1 + (int)rd.below(5);
     if (rd.chance(1, 6)) k.max_kids = 3 + (int)rd.below(10);
+    { static const int WIDE[] = {17, 33, 65, 129, 255, 256, 257, 300}; if (rd.chance(1, tier ? 30 : 80)) k.wide = WIDE[rd.below(8)]; }
     root_kind = rd.chance(35, 100) ? 1 : 0;
     Node root = gen_tree(rd, k, root_kind != 0);
     Bytes doc; encode(root, doc);
@@ -64,6 +65,7 @@ Bytes deep_document(Rng &rd, int &root_kind, std::vector<std::string> &faults, i
         faults.push_back(fmt("F6:arrays=%d", n));
     } else {
         int n = 2 + (int)rd.below(rd.chance(1, 4) ? 260 : 12);
+        if (rd.chance(1, 4)) { static const int T[] = {8, 16, 32, 64, 127, 128, 129, 254, 255, 256}; n = T[rd.below(10)]; }
         root_kind = 0;
         for (int i = 0; i < n; i++) { doc.push_back(0x40); if (i + 1 < n) { doc.push_back(0x14); doc.push_back(0x01); doc.push_back('a'); } }
         for (int i = 0; i < n; i++) doc.push_back(0x41);
